@@ -10,6 +10,7 @@ pub mod nfids;
 pub mod node;
 pub mod programs;
 pub mod steps;
+pub mod transport;
 
 use crate::simkit::*;
 use monitors::*;
